@@ -390,9 +390,11 @@ def run(m, chk):
 
     jacobian(r, chk, ["calculus.Integrate.scalar", "calculus.Integrate.density", "calculus.Integrate.function"])
     piecewise_eval(r, chk, ["calculus.Integrate.scalar", "calculus.Integrate.density"])
-    from .extra import precond_lb
+    from .extra import precond_lb, size_default
 
-    precond_lb(r, chk, ["calculus.Integrate.scalar", "calculus.Integrate.density", "calculus.Integrate.function", "heavy.LeastSquare.func2func"])
+    precond_lb(r, chk, ["heavy.LeastSquare.func2func"])
+    nsz = size_default(r, chk, ["calculus.Integrate.scalar", "calculus.Integrate.density", "calculus.Integrate.function"], exact=["calculus.Integrate.scalar"])
+    chk.floor("SIZE-DEFAULT", "(integrator, method) pairs whose default size was folded", nsz, 12)
     for q, params in (("calculus.Integrate.scalar", ["curve"]), ("calculus.Integrate.density", ["curve"]), ("calculus.Integrate.lenght", ["curve"]), ("calculus.Integrate.function", ["knotvector"])):
         r.pure("PURE", q, params)
     for q, need in (("calculus.Integrate.scalar", ["curve.knotvector", "curve.ctrlpoints", "curve.weights", "function", "method", "nnodes"]), ("calculus.Integrate.density", ["curve.knotvector", "curve.ctrlpoints", "curve.weights", "function", "method", "nnodes"]), ("calculus.Integrate.function", ["knotvector", "function", "method", "nnodes"])):
